@@ -104,6 +104,20 @@ impl<C: CommentsParser> BlocksParser for MdParser<C> {
     }
 }
 
+/// Replaces the text of all "block_continuation" descendants of the `node` with spaces in `text`
+/// (the `node`'s own text, which starts at the byte offset `base` of the source).
+fn blank_block_continuations(node: &tree_sitter::Node, base: usize, text: &mut String) {
+    let mut cursor = node.walk();
+    for child in node.children(&mut cursor) {
+        if child.kind() == "block_continuation" {
+            let range = child.start_byte() - base..child.end_byte() - base;
+            text.replace_range(range.clone(), &" ".repeat(range.len()));
+        } else {
+            blank_block_continuations(&child, base, text);
+        }
+    }
+}
+
 fn markdown_comments_parser() -> anyhow::Result<impl CommentsParser> {
     let markdown_lang = tree_sitter_md::LANGUAGE.into();
     let parser = TreeSitterCommentsParser::new(
@@ -112,7 +126,12 @@ fn markdown_comments_parser() -> anyhow::Result<impl CommentsParser> {
             if node.kind() != "link_reference_definition" {
                 return None;
             }
-            let comment = &source_code[node.byte_range()];
+            // Container markers at the start of the definition's continuation lines (e.g. the ">"
+            // of a block quote) are not a part of its text: blank them so that a ">" can't end a
+            // tag written over several lines of the title.
+            let mut comment = source_code[node.byte_range()].to_string();
+            blank_block_continuations(node, node.start_byte(), &mut comment);
+            let comment = comment.as_str();
             let prefix_idx = comment.find("[//]:")?;
             let start_search = prefix_idx + 5;
             // A link reference definition without a title, or with an unfinished one, holds no
